@@ -3,7 +3,8 @@ G1 inventory of mutable globals / function-local statics (source level, every li
    sections in the assembled objects; G2 every writer / address-escape of such an object is on the
    reasoned allow-list; G3 the allow-listed ones are used as documented; G4 manager errors are
    recorded in the manager (shared with C12/C14); G5 no stateful libc / hidden channel."""
-from .. import cf, build
+import re
+from .. import cf, guards, build
 from . import shared
 
 # name -> (reason, functions allowed to write or take the address)
@@ -179,6 +180,55 @@ def run(chk):
                            'manager/thread may have recorded; read mb_mgr->imb_errno instead' % f.name)
     if not ndef:
         chk.broken('imb_get_errno not found in the library')
+    # ---- G7: the per-manager half of the error code does not depend on the process-wide half
+    g7 = chk.rule('G7', 'in the error-code accessors the store to / the return of mb_mgr->imb_errno is decided by the manager alone: no condition '
+                        'on its path reads the process-wide imb_errno (which other managers write)', floor=2)
+    for fname in ('imb_set_errno', 'imb_get_errno'):
+        done = False
+        for tu, f in P.find(fname):
+            if done:
+                break
+            done = True
+            dom = f.dominators()
+            with guards.in_function(f):
+                for b, i, ev in f.events(('assign', 'return')):
+                    x = ev['lhs'] if ev['k'] == 'assign' else (ev.get('val') or ev.get('e') or {})
+                    if not any(nd.get('k') == 'mem' and nd.get('f') == 'imb_errno' and 'IMB_MGR' in (nd.get('rec') or '') for nd in cf.walk(x)):
+                        continue
+                    # every branch condition this block is control dependent on (dominating ifs whose one side only leads here)
+                    conds = []
+                    for d in dom.get(b, ()):
+                        t = f.blocks[d].get('term')
+                        if d != b and t and t['kind'] in ('IfStmt', 'BinaryOperator', 'ConditionalOperator') and any(
+                                s_ is not None and s_ not in dom.get(b, ()) or True for s_ in f.blocks[d]['succ']):
+                            pd_all = all(s_ is not None and (s_ == b or s_ in dom.get(b, ())) for s_ in f.blocks[d]['succ'])
+                            if not pd_all:
+                                conds.append(t.get('fullcond') or t.get('cond') or {})
+                    reads_global = any(nd.get('k') == 'ref' and nd.get('g') and nd['n'] == 'imb_errno' for c in conds for nd in cf.walk(c))
+                    g7.check(not reads_global, '%s:%s@%s' % (fname, ev['k'], ev['loc'].split('/')[-1]), ev['loc'],
+                             '%s: the %s of mb_mgr->imb_errno is conditional on the process-wide imb_errno: what one manager reports or records '
+                             'depends on the last error of any other manager' % (fname, 'store' if ev['k'] == 'assign' else 'return'))
+        if not done:
+            chk.broken('%s not found' % fname)
+    # ---- G8: the session counter is advanced with a LOCKed instruction
+    g8 = chk.rule('G8', 'atomic_uint64_inc advances the counter with a LOCK-prefixed read-modify-write (two managers on two threads draw '
+                        'distinct session ids)', floor=1)
+    try:
+        from .. import asmfacts
+        found = False
+        for rel, name, res in asmfacts.all_functions():
+            if name != 'atomic_uint64_inc':
+                continue
+            found = True
+            rmw = [t for t in res.get('lines', {}).values() if re.search(r'\b(cmpxchg|xadd|inc|add)\b', t) and '[' in t]
+            locked = [t for t in rmw if re.search(r'\block\b', t)]
+            g8.check(bool(rmw) and len(locked) == len(rmw), 'atomic_uint64_inc', rel,
+                     'atomic_uint64_inc updates memory with %s: without LOCK two threads can draw the same session id' % (
+                         '; '.join(t.split('  [')[0].strip() for t in rmw if t not in locked)[:200] or 'no read-modify-write instruction'))
+        if not found:
+            chk.broken('atomic_uint64_inc not found among the assembled functions')
+    except Exception as ex:      # noqa
+        chk.broken('G8: %s' % ex)
     # ---- G4
     shared.rule_errno_target(chk, P, 'G4')
     # ---- G5
